@@ -1,0 +1,27 @@
+//! Verification hooks (only compiled with the cargo feature `verif-hooks`, which is off by
+//! default). Read-only observers used by external runtime monitors: per-thread event
+//! counters that record which internal mechanisms were exercised by a workload.
+//! Nothing in here influences the behaviour of the library.
+
+use std::cell::RefCell;
+use std::collections::BTreeMap;
+
+thread_local! {
+    static HITS: RefCell<BTreeMap<&'static str, u64>> = RefCell::new(BTreeMap::new());
+}
+
+/// Count one occurrence of the named mechanism on the current thread.
+#[inline]
+pub fn hit(name: &'static str) {
+    HITS.with(|h| *h.borrow_mut().entry(name).or_insert(0) += 1);
+}
+
+/// Snapshot of the counters of the current thread.
+pub fn snapshot() -> BTreeMap<&'static str, u64> {
+    HITS.with(|h| h.borrow().clone())
+}
+
+/// Reset the counters of the current thread.
+pub fn reset() {
+    HITS.with(|h| h.borrow_mut().clear());
+}
